@@ -22,7 +22,7 @@ package ice
 //@
 //@ spec isCHW(x int) bool = x != 0 && dyntype(x) == typetag("*countHashWriter")
 //@ typeinv countHashWriter self.w != self && dyntype(self) == typetag("*countHashWriter")
-//@ typeinv countHashWriter self.n >= 0
+//@ fieldinv[C04,C10,C11] countHashWriter.n v >= 0
 //@
 //@ func newCountHashWriter
 //@   safety[C11] nil
@@ -93,6 +93,13 @@ package ice
 //@ // a cached FST is a loaded FST: a failed load must not leave an entry behind
 //@ mapinv[C08,C18,C19] Segment.fieldFSTs v != nil
 //@ typeinv Dictionary self.fstReader != nil ==> rfst(self.fstReader) != nil
+//@ // a dictionary with terms belongs to a segment; its fields are set while it is built and never again
+//@ frozen[C05,C08,C09,C13,C15,C18] Dictionary.sb Dictionary.fst Dictionary.fstReader DictionaryIterator.d
+//@ typeinv Dictionary (self.fst != nil || self.fstReader != nil) ==> self.sb != nil
+//@ typeinv DictionaryIterator self.itr != nil ==> self.d != nil && self.d.sb != nil
+//@
+//@ func (*Dictionary).PostingsList
+//@   requires[C08,C13,C18] d != nil
 //@
 //@ func (*Segment).dictionary
 //@   safety[C08,C18,C19] nil idx slice map
@@ -444,6 +451,7 @@ package ice
 //@ func newChunkedDocumentCoder
 //@   ensures[C03,C04,C06] result0 != nil && fresh(result0) && result0.w == w && result0.chunkSize == chunkSize && result0.n == 0 && result0.bytes == 0
 //@   ensures[C03,C04,C06] len(result0.offsets) == 1 && result0.buf != nil && fresh(result0.offsets) && len(result0.metaBuf) == 10
+//@   ensures[C04] fresh(result0.buf)
 //@
 //@ // the per-segment mapping tables are read-only for everything after the stored section
 //@ func setupActiveForField
@@ -591,15 +599,27 @@ package ice
 //@ // ---------------------------------------------------------------------------
 //@ // C04: what the writers establish is what Load relies on
 //@ // the stored section always ends with the 8-byte chunk trailer (offsets length, chunk count)
+//@ ghostfield * tablen int
 //@ func (*chunkedDocumentCoder).Write
-//@   requires[C04] c != nil && c.buf != nil && c.metaBuf != nil
+//@   requires[C04] c != nil && c.buf != nil && len(c.metaBuf) == 10 && c.buf != c.w
 //@   ensures[C04] @trailer_written result0 == nil && isCHW(c.w) ==> cast(c.w, "*countHashWriter").n >= old(cast(c.w, "*countHashWriter").n) + 8
 //@   loop 0 invariant[C04] c.w == old(c.w) && (isCHW(c.w) ==> cast(c.w, "*countHashWriter").n >= old(cast(c.w, "*countHashWriter").n))
+//@   loop 0 invariant[C04] 0 <= wn && outlen(c.w) - wn >= old(outlen(c.w)) && len(c.metaBuf) == 10
+//@   ghostset tablen(c) = wn
+//@   ensures[C04] @trailer_layout result0 == nil ==> tablen(c) >= 0 && outlen(c.w) - 8 - tablen(c) >= old(outlen(c.w))
+//@   ensures[C04] @trailer_layout result0 == nil ==> be32(out(c.w), outlen(c.w) - 8) == tablen(c) && be32(out(c.w), outlen(c.w) - 4) == len(c.offsets)
 //@
 //@ func (*chunkedDocumentCoder).flush
+//@   requires[C04] c != nil && c.buf != nil && c.buf != c.w
+//@   ensures[C04] outlen(c.w) >= old(outlen(c.w))
+//@   ensures[C04] len(c.metaBuf) == old(len(c.metaBuf))
 //@   ensures[C04] c.w == old(c.w) && (isCHW(c.w) ==> cast(c.w, "*countHashWriter").n >= old(cast(c.w, "*countHashWriter").n))
 //@
 //@ func mergeStoredAndRemap
+//@   loop 0 invariant[C04] docChunkCoder != nil && docChunkCoder.buf != nil && docChunkCoder.w == w && len(docChunkCoder.metaBuf) == 10 && docChunkCoder.buf != w
+//@   at call:(*chunkedDocumentCoder).Write#0 lemma[C04] isCHW(w) && docChunkCoder.w == w
+//@   at call:(*chunkedDocumentCoder).Write#0 lemma[C04] result0 == nil ==> w.n >= 8
+//@   at call:(*countHashWriter).Count#0 lemma[C04] result0 >= 8
 //@   ensures[C04] @stored_trailer_present err == nil ==> storedIndexOffset >= 8
 //@
 //@ func mergeToWriter
@@ -671,3 +691,179 @@ package ice
 //@   loop 1 invariant[C01,C06] docChunkCoder != nil && docChunkCoder.buf != nil && arr(docStoredOffsets) != arr(docChunkCoder.offsets) && arr(docStoredOffsets) != 0
 //@   loop 2 invariant[C01,C06] docChunkCoder != nil && docChunkCoder.buf != nil && arr(docStoredOffsets) != arr(docChunkCoder.offsets) && arr(docStoredOffsets) != 0
 //@   at call:(*chunkedDocumentCoder).Add#0 lemma[C01,C06] docStoredOffsets[docNum] == recoff(docChunkCoder)
+//@
+//@ // ---- the iterator's representation invariant at the API boundary (C05) ----
+//@ // Established by (*PostingsList).iterator, required and re-established by every
+//@ // navigation call: an input contract on Next/Advance ("the iterator came from
+//@ // Iterator and is used only through the API, not after an error").
+//@ func (*PostingsIterator).nextAtOrAfter
+//@   requires[C05] i != nil
+//@   requires[C05] i.Actual != nil ==> i.postings != nil && i.all != nil && 1 <= i.postings.chunkSize && i.postings.chunkSize <= 4294967295
+//@   requires[C05] i.Actual != nil ==> inU32(itset(i.Actual)) && inU32(itset(i.all)) && itcur(i.Actual) >= 0
+//@   requires[C05] i.Actual != nil && i.postings.postings != i.ActualBM ==> i.all != i.Actual && subsetOf(itset(i.Actual), itset(i.all)) && itcur(i.all) <= itcur(i.Actual)
+//@   ensures[C05] @first old(i.normBits1Hit) == 0 && old(i.Actual) != nil && result1 == nil && result0 != nil ==> cast(result0, "*Posting").docNum == least(old(itset(i.Actual)), maxi(old(itcur(i.Actual)), atOrAfter)) && cast(result0, "*Posting").docNum >= atOrAfter
+//@   ensures[C05] @none old(i.normBits1Hit) == 0 && old(i.Actual) != nil && result1 == nil && result0 == nil ==> least(old(itset(i.Actual)), maxi(old(itcur(i.Actual)), atOrAfter)) == -1
+//@   ensures[C05] @inv_kept result1 == nil && i.Actual != nil ==> i.postings != nil && i.all != nil && 1 <= i.postings.chunkSize && i.postings.chunkSize <= 4294967295 && inU32(itset(i.Actual)) && inU32(itset(i.all)) && itcur(i.Actual) >= 0
+//@   ensures[C05] @inv_kept result1 == nil && i.Actual != nil && i.postings.postings != i.ActualBM ==> i.all != i.Actual && subsetOf(itset(i.Actual), itset(i.all)) && itcur(i.all) <= itcur(i.Actual)
+//@ func (*PostingsIterator).Next
+//@   requires[C05] i != nil
+//@   requires[C05] i.Actual != nil ==> i.postings != nil && i.all != nil && 1 <= i.postings.chunkSize && i.postings.chunkSize <= 4294967295
+//@   requires[C05] i.Actual != nil ==> inU32(itset(i.Actual)) && inU32(itset(i.all)) && itcur(i.Actual) >= 0
+//@   requires[C05] i.Actual != nil && i.postings.postings != i.ActualBM ==> i.all != i.Actual && subsetOf(itset(i.Actual), itset(i.all)) && itcur(i.all) <= itcur(i.Actual)
+//@   ensures[C05] @first old(i.normBits1Hit) == 0 && old(i.Actual) != nil && result1 == nil && result0 != nil ==> cast(result0, "*Posting").docNum == least(old(itset(i.Actual)), old(itcur(i.Actual)))
+//@   ensures[C05] @none old(i.normBits1Hit) == 0 && old(i.Actual) != nil && result1 == nil && result0 == nil ==> least(old(itset(i.Actual)), old(itcur(i.Actual))) == -1
+//@   ensures[C05] @inv_kept result1 == nil && i.Actual != nil ==> i.postings != nil && i.all != nil && 1 <= i.postings.chunkSize && i.postings.chunkSize <= 4294967295 && inU32(itset(i.Actual)) && inU32(itset(i.all)) && itcur(i.Actual) >= 0
+//@   ensures[C05] @inv_kept result1 == nil && i.Actual != nil && i.postings.postings != i.ActualBM ==> i.all != i.Actual && subsetOf(itset(i.Actual), itset(i.all)) && itcur(i.all) <= itcur(i.Actual)
+//@ func (*PostingsIterator).Advance
+//@   requires[C05] i != nil
+//@   requires[C05] i.Actual != nil ==> i.postings != nil && i.all != nil && 1 <= i.postings.chunkSize && i.postings.chunkSize <= 4294967295
+//@   requires[C05] i.Actual != nil ==> inU32(itset(i.Actual)) && inU32(itset(i.all)) && itcur(i.Actual) >= 0
+//@   requires[C05] i.Actual != nil && i.postings.postings != i.ActualBM ==> i.all != i.Actual && subsetOf(itset(i.Actual), itset(i.all)) && itcur(i.all) <= itcur(i.Actual)
+//@   ensures[C05] @first old(i.normBits1Hit) == 0 && old(i.Actual) != nil && result1 == nil && result0 != nil ==> cast(result0, "*Posting").docNum == least(old(itset(i.Actual)), maxi(old(itcur(i.Actual)), docNum)) && cast(result0, "*Posting").docNum >= docNum
+//@   ensures[C05] @none old(i.normBits1Hit) == 0 && old(i.Actual) != nil && result1 == nil && result0 == nil ==> least(old(itset(i.Actual)), maxi(old(itcur(i.Actual)), docNum)) == -1
+//@   ensures[C05] @inv_kept result1 == nil && i.Actual != nil ==> i.postings != nil && i.all != nil && 1 <= i.postings.chunkSize && i.postings.chunkSize <= 4294967295 && inU32(itset(i.Actual)) && inU32(itset(i.all)) && itcur(i.Actual) >= 0
+//@   ensures[C05] @inv_kept result1 == nil && i.Actual != nil && i.postings.postings != i.ActualBM ==> i.all != i.Actual && subsetOf(itset(i.Actual), itset(i.all)) && itcur(i.all) <= itcur(i.Actual)
+//@ func (*PostingsIterator).nextDocNumAtOrAfter
+//@   ensures[C05] @inv_kept err == nil && i.Actual != nil ==> i.postings != nil && i.all != nil && 1 <= i.postings.chunkSize && i.postings.chunkSize <= 4294967295 && inU32(itset(i.Actual)) && inU32(itset(i.all)) && itcur(i.Actual) >= 0
+//@   ensures[C05] @inv_kept err == nil && i.Actual != nil && i.postings.postings != i.ActualBM ==> i.all != i.Actual && subsetOf(itset(i.Actual), itset(i.all)) && itcur(i.all) <= itcur(i.Actual)
+//@ func mergeTermFreqNormLocs
+//@   requires[C05] postItr != nil
+//@   requires[C05] postItr.Actual != nil ==> postItr.postings != nil && postItr.all != nil && 1 <= postItr.postings.chunkSize && postItr.postings.chunkSize <= 4294967295
+//@   requires[C05] postItr.Actual != nil ==> inU32(itset(postItr.Actual)) && inU32(itset(postItr.all)) && itcur(postItr.Actual) >= 0
+//@   requires[C05] postItr.Actual != nil && postItr.postings.postings != postItr.ActualBM ==> postItr.all != postItr.Actual && subsetOf(itset(postItr.Actual), itset(postItr.all)) && itcur(postItr.all) <= itcur(postItr.Actual)
+//@   loop 0 invariant[C05] err == nil && postItr.Actual != nil ==> postItr.postings != nil && postItr.all != nil && 1 <= postItr.postings.chunkSize && postItr.postings.chunkSize <= 4294967295
+//@   loop 0 invariant[C05] err == nil && postItr.Actual != nil ==> inU32(itset(postItr.Actual)) && inU32(itset(postItr.all)) && itcur(postItr.Actual) >= 0
+//@   loop 0 invariant[C05] err == nil && postItr.Actual != nil && postItr.postings.postings != postItr.ActualBM ==> postItr.all != postItr.Actual && subsetOf(itset(postItr.Actual), itset(postItr.all)) && itcur(postItr.all) <= itcur(postItr.Actual)
+//@ func (*PostingsList).iterator
+//@   requires[C05] p != nil && (p.normBits1Hit == 0 && p.postings != nil && card(bset(p.postings)) > 0 ==> 1 <= p.chunkSize && p.chunkSize <= 4294967295)
+//@   ensures[C05] @inv_established result1 == nil && result0.Actual != nil ==> result0.postings != nil && result0.all != nil && 1 <= result0.postings.chunkSize && result0.postings.chunkSize <= 4294967295
+//@   ensures[C05] @inv_established result1 == nil && result0.Actual != nil ==> inU32(itset(result0.Actual)) && inU32(itset(result0.all)) && itcur(result0.Actual) >= 0
+//@   ensures[C05] @inv_established result1 == nil && result0.Actual != nil && result0.postings.postings != result0.ActualBM ==> result0.all != result0.Actual && subsetOf(itset(result0.Actual), itset(result0.all)) && itcur(result0.all) <= itcur(result0.Actual)
+//@
+//@ // ---- chunk size of a list read from a segment (C05) ----
+//@ // valid-segment assumptions: a persisted general postings list is non-empty and names only
+//@ // documents of its segment; the footer's chunk mode is one ice writes (>= 1)
+//@ func (*PostingsList).read
+//@   assume d != nil && d.sb != nil && d.sb.footer != nil ==> d.sb.footer.chunkMode >= 1 && d.sb.footer.numDocs <= 4294967295
+//@   at call:(*github.com/RoaringBitmap/roaring.Bitmap).FromBuffer#0 assume result1 == nil ==> 1 <= card(bset(p.postings)) && card(bset(p.postings)) <= d.sb.footer.numDocs
+//@   ensures[C05] @chunk_size_positive result0 == nil && !is1Hit(postingsOffset) ==> 1 <= p.chunkSize && p.chunkSize <= 4294967295
+//@   ensures[C05,C08,C13] @one_hit_leaves_bitmap is1Hit(postingsOffset) ==> p.postings == old(p.postings) && (p.postings != nil ==> bset(p.postings) == old(bset(p.postings)))
+//@ func (*Dictionary).postingsListFromOffset
+//@   ensures[C05] @chunk_size_positive result1 == nil && result0.normBits1Hit == 0 && result0.postings != nil && card(bset(result0.postings)) > 0 ==> 1 <= result0.chunkSize && result0.chunkSize <= 4294967295
+//@ func (*PostingsList).Iterator
+//@   // input contract: the list was obtained from a dictionary of a valid segment
+//@   requires[C05] p.normBits1Hit == 0 && p.postings != nil && card(bset(p.postings)) > 0 ==> 1 <= p.chunkSize && p.chunkSize <= 4294967295
+//@
+//@ // ---- call chain down to the stored-record decoder (C06) ----
+//@ func (*Segment).getDocStoredMetaAndUnCompressed
+//@   requires[C06] s != nil && docNum < s.footer.numDocs
+//@ func (*Segment).visitDocument
+//@   requires[C06] s != nil
+//@ func (*Segment).VisitStoredFields
+//@   requires[C06] s != nil
+//@
+//@ // ---- call chain down to the per-document counting (C16) ----
+//@ func (*interim).prepareDictsForDocument
+//@   ensures[C16] s.FieldDocs == old(s.FieldDocs) && s.FieldFreqs == old(s.FieldFreqs)
+//@ func (*interim).prepareDicts
+//@   requires[C16] s != nil && s.FieldDocs != nil && s.FieldDocs != s.FieldFreqs
+//@   loop 0 invariant[C16] s.FieldDocs == old(s.FieldDocs) && s.FieldFreqs == old(s.FieldFreqs)
+//@ func (*interim).convert
+//@   requires[C16] s != nil
+//@ func newWithChunkMode
+//@   // the pool only ever holds non-nil builders (its New function and the only Put)
+//@   at call:(*sync.Pool).Get#0 assume result0 != nil
+//@
+//@ // ---- the builder writes through one counting/hashing writer over a plain buffer (C11) ----
+//@ func (*interim).writeDicts
+//@   requires[C11] s != nil && s.w != nil && !isCHW(s.w.w)
+//@ func (*interim).writeDictsField
+//@   requires[C11] s != nil && s.w != nil && !isCHW(s.w.w)
+//@ func (*interim).convert
+//@   requires[C11] s != nil && s.w != nil && !isCHW(s.w.w)
+//@
+//@ // a countHashWriter wraps a foreign writer, or (persistFooter) one countHashWriter over a foreign writer
+//@ frozen[C04,C10,C11,C12] countHashWriter.w
+//@ typeinv countHashWriter isCHW(self.w) ==> !isCHW(cast(self.w, "*countHashWriter").w)
+//@ func newCountHashWriter
+//@   requires[C11] isCHW(w) ==> !isCHW(cast(w, "*countHashWriter").w)
+//@ func persistFields
+//@   requires[C11] w != nil
+//@ func writeDvLocs
+//@   requires[C11] w != nil
+//@ func writeMergedDict
+//@   requires[C11] w != nil
+//@ func writePostings
+//@   requires[C11] w != nil
+//@ func finishTerm
+//@   requires[C11] w != nil
+//@ func buildMergedDocVals
+//@   requires[C11] w != nil
+//@ func persistMergedRest
+//@   requires[C11] w != nil
+//@ func persistMergedRestField
+//@   requires[C11] w != nil
+//@ func mergeStoredAndRemap
+//@   requires[C11] w != nil
+//@ func mergeToWriter
+//@   requires[C11] cr != nil
+//@ func mergeSegmentBasesWriter
+//@   // the caller's writer is foreign: countHashWriter is unexported
+//@   requires[C11] !isCHW(w)
+//@ func (*interim).convert
+//@   // ownership: the builder was taken out of the pool, so builds re-entered from the
+//@   // documents' callbacks (EachField, Analyze) work on other builders and leave s.w alone
+//@   at call:(*interim).processDocuments#0 assume s.w == old(s.w)
+//@   at call:(*interim).writeStoredFields#0 assume s.w == old(s.w)
+//@   at call:(*interim).writeStoredFields#0 lemma[C11] s.w != nil && !isCHW(s.w.w)
+//@ func (*interim).writeDictsTermField
+//@   requires[C11] s != nil && s.w != nil
+//@ func merge
+//@   requires[C11] !isCHW(w)
+//@
+//@ // ---- Load builds the Segment whose invariant everybody else relies on (C04, C10) ----
+//@ func load
+//@   requires[C04,C10] data != nil
+//@ func Load
+//@   requires[C04,C10] data != nil
+//@ func (*Segment).loadFields
+//@   constructs s
+//@   requires[C04,C10] s != nil && s.footer != nil && s.data != nil && s.fieldFSTs != nil && s.fieldsMap != nil
+//@   requires[C04,C10] len(s.dictLocs) == 0 && len(s.fieldsInv) == 0 && forallstr(k, s.fieldsMap[k] == 0)
+//@   loop 0 invariant[C04,C10] s.footer != nil && s.data != nil && s.fieldFSTs != nil && s.fieldsMap != nil
+//@   loop 0 invariant[C04,C10] len(s.dictLocs) == fieldID && len(s.fieldsInv) == fieldID && forallstr(k, s.fieldsMap[k] <= len(s.fieldsInv))
+//@   ensures[C04,C10] @segment_invariant_established result0 == nil ==> s.footer != nil && s.data != nil && s.fieldFSTs != nil && len(s.dictLocs) == len(s.fieldsInv) && forallstr(k, s.fieldsMap[k] <= len(s.fieldsInv))
+//@
+//@ // ---- the merge input contract enters at Merger.WriteTo and is carried down (C03) ----
+//@ func mergeSegmentBasesWriter
+//@   requires[C03] len(drops) == len(segmentBases) && forall(i, 0, len(segmentBases), segmentBases[i] != nil)
+//@   requires[C03] forall(j, 0, len(segmentBases), drops[j] != nil ==> forall(k, select(bset(drops[j]), k) ==> 0 <= k && k < segmentBases[j].footer.numDocs))
+//@ func merge
+//@   requires[C03] len(drops) == len(segments) && forall(i, 0, len(segments), segments[i] != nil)
+//@   requires[C03] forall(j, 0, len(segments), drops[j] != nil ==> forall(k, select(bset(drops[j]), k) ==> 0 <= k && k < cast(segments[j], "*Segment").footer.numDocs))
+//@   loop 0 invariant[C03] len(segmentBases) == len(segments) && forall(i, 0, rangeindex + 1, segmentBases[i] == segments[i])
+//@ func (*Merger).WriteTo
+//@   requires[C03] m != nil && len(m.drops) == len(m.segments) && forall(i, 0, len(m.segments), m.segments[i] != nil)
+//@   requires[C03] forall(j, 0, len(m.segments), m.drops[j] != nil ==> forall(k, select(bset(m.drops[j]), k) ==> 0 <= k && k < cast(m.segments[j], "*Segment").footer.numDocs))
+//@
+//@ // ---- the merger's per-field dictionaries all belong to a segment (C08, C13, C18) ----
+//@ func setupActiveForField
+//@   requires[C08,C13,C18] forall(i, 0, len(segments), segments[i] != nil)
+//@   loop 0 invariant[C08,C13,C18] forall(i, 0, len(dicts), dicts[i] != nil && dicts[i].sb != nil)
+//@   ensures[C08,C13,C18] err == nil ==> forall(i, 0, len(dicts), dicts[i] != nil && dicts[i].sb != nil)
+//@ func prepareNewTerm
+//@   requires[C08,C13,C18] forall(i, 0, len(dicts), dicts[i] != nil && dicts[i].sb != nil)
+//@ func persistMergedRestField
+//@   requires[C08,C13,C18] forall(i, 0, len(segments), segments[i] != nil)
+//@   loop 0 invariant[C08,C13,C18] forall(i, 0, len(dicts), dicts[i] != nil && dicts[i].sb != nil)
+//@ func persistMergedRest
+//@   requires[C08,C13,C18] forall(i, 0, len(segments), segments[i] != nil)
+//@ func mergeToWriter
+//@   requires[C08,C13,C18] forall(i, 0, len(segments), segments[i] != nil)
+//@ func mergeSegmentBasesWriter
+//@   requires[C08,C13,C18] forall(i, 0, len(segmentBases), segmentBases[i] != nil)
+//@ func merge
+//@   requires[C08,C13,C18] forall(i, 0, len(segments), segments[i] != nil)
+//@   loop 0 invariant[C08,C13,C18] len(segmentBases) == len(segments) && forall(i, 0, rangeindex + 1, segmentBases[i] == segments[i])
+//@ func (*Merger).WriteTo
+//@   requires[C08,C13,C18] m != nil && forall(i, 0, len(m.segments), m.segments[i] != nil)
